@@ -1,4 +1,5 @@
 import AcraModel.Envelope.Poison
+import AcraModel.Envelope.PoisonLemmas
 import AcraModel.Generated.Wiring
 /-!
 # C15 — poison records always raise the alarm, ordinary data never does
@@ -19,5 +20,97 @@ theorem fact_poison_first :
 theorem fact_translator_checks :
     Wiring.translatorPoisonChecks.map (·.1) = ["Decrypt", "DecryptSearchable", "DecryptSymSearchable", "DecryptSym"] ∧
     ∀ p ∈ Wiring.translatorPoisonChecks, 1 ≤ p.2 := by decide
+
+/-! ## 1. the traced scan computes the same bytes as the plain one
+
+The alarm count is the second component of `scanT` / `onColumnT` / `onColumnCompatT` / `proxyOnColumn` /
+`translatorDecrypt`. These functions return only after every callback has run, so a positive count
+in the returned pair means: the intrusion callbacks ran BEFORE the value was delivered. The first
+component is what is delivered; the theorems of this section say that it is exactly what the
+untraced functions of `Detector.lean` compute, so every C01/C03 theorem about `scan`, `onColumn`,
+`onColumnCompat` is a theorem about the delivered value. -/
+
+/-- **Threading the alarm counter through the scan does not change what the scan returns**: the output
+component of the traced scan is the plain scan run on the callbacks with their alarm bit dropped. -/
+theorem scanT_output (cbsT : List CallbackT) (rest : Bytes) :
+    (scanT cbsT rest).1 = scan (cbsT.map (fun f x => (f x).1)) rest := scanT_fst cbsT rest
+
+/-- … in particular for callbacks that never raise the alarm (`plainT`) it is the plain scan. -/
+theorem scanT_output_plain (cbs : List Callback) (rest : Bytes) :
+    (scanT (cbs.map plainT) rest).1 = scan cbs rest := by
+  rw [scanT_fst, outCbs_plainT]
+
+/-- The same for `EnvelopeDetector.OnColumn` … -/
+theorem onColumnT_output (cbsT : List CallbackT) (d : Bytes) :
+    (onColumnT cbsT d).1 = onColumn (cbsT.map (fun f x => (f x).1)) d := onColumnT_fst cbsT d
+
+/-- … and for the whole compatibility wrapper `OldContainerDetectorWrapper.OnColumn` (container scan,
+then bare AcraStructs, then bare AcraBlocks). -/
+theorem onColumnCompatT_output (cbsT : List CallbackT) (d : Bytes) :
+    (onColumnCompatT cbsT d).1 = onColumnCompat (cbsT.map (fun f x => (f x).1)) d := onColumnCompatT_fst cbsT d
+
+/-- What the SQL proxies deliver for a column value is `OldContainerDetectorWrapper.OnColumn` with the
+callback list "poison detector (if callbacks are configured), decrypt handler"; the poison detector
+answers "unchanged" unless it raised the alarm and the configured callbacks failed. Without
+callbacks it is exactly the column processor of C01/C03. -/
+theorem proxyOnColumn_output (c : CryptoOps) (cfg : PoisonCfg) (kv : KeyView) (d : Bytes) :
+    (proxyOnColumn c cfg kv d).1 =
+      onColumnCompat ((if cfg.hasCallbacks then [fun x => (poisonCallback c cfg x).1] else []) ++ [decryptCallback c kv]) d := by
+  unfold proxyOnColumn
+  rw [onColumnCompatT_fst]
+  unfold proxyCallbacks outCbs
+  cases cfg.hasCallbacks <;> rfl
+
+/-! ## 4. no callbacks / no poison keys: never an alarm -/
+
+/-- **Without configured intrusion callbacks nothing is ever reported**, whatever the value: the SQL
+proxies do not register the poison detector (and the detector itself returns at once), AcraTranslator
+scans with an empty callback list. -/
+theorem no_callbacks_no_alarm (c : CryptoOps) (cfg : PoisonCfg) (kv : KeyView) (k : Kind) (d : Bytes)
+    (h : cfg.hasCallbacks = false) :
+    (proxyOnColumn c cfg kv d).2 = 0 ∧ (translatorDecrypt c cfg kv k d).2 = 0 := by
+  constructor
+  · apply onColumnCompatT_quiet
+    intro f hf x
+    cases hn : (f x).2 with
+    | false => rfl
+    | true => exact absurd (proxyCallbacks_alarm ⟨f, hf, hn⟩).1 (by simp [h])
+  · unfold translatorDecrypt
+    cases decryptWithHandler c kv k d with
+    | ok m => rfl
+    | panic => rfl
+    | err =>
+      simp only [h, Bool.false_eq_true, if_false]
+      exact onColumnT_quiet [] (fun f hf => nomatch hf) d
+
+/-- **A key store without poison keys never raises the alarm** (`GetPoison…Keys` fail: the detector
+logs "skip poison record check due to a lack of poison keys" and returns the container unchanged). -/
+theorem missing_poison_keys_no_alarm (c : CryptoOps) (cfg : PoisonCfg) (kv : KeyView) (k : Kind) (d : Bytes)
+    (hp : cfg.pk.privs = none) (hs : cfg.pk.syms = none) :
+    (proxyOnColumn c cfg kv d).2 = 0 ∧ (translatorDecrypt c cfg kv k d).2 = 0 := by
+  have hq : ∀ x, (poisonCallback c cfg x).2 = false := by
+    intro x
+    rw [poisonCallback_alarm, isPoison_no_keys c cfg.pk hp hs]
+    simp
+  constructor
+  · apply onColumnCompatT_quiet
+    intro f hf x
+    cases hn : (f x).2 with
+    | false => rfl
+    | true =>
+      have := (proxyCallbacks_alarm ⟨f, hf, hn⟩).2
+      rw [isPoison_no_keys c cfg.pk hp hs] at this
+      cases this
+  · unfold translatorDecrypt
+    cases decryptWithHandler c kv k d with
+    | ok m => rfl
+    | panic => rfl
+    | err =>
+      simp only
+      apply onColumnT_quiet
+      intro f hf x
+      split at hf
+      · rw [List.mem_singleton.1 hf]; exact hq x
+      · cases hf
 
 end AcraModel.Props.C15
